@@ -506,6 +506,8 @@ type fakeToken struct {
 	// gate: when set, a pinned fetch announces itself on `entered` and waits for `gate` (cacherace ops)
 	gate    chan struct{}
 	entered chan struct{}
+	// gateUnpinned: the gate holds UNPINNED fetches instead (reverse scenario of cacherace)
+	gateUnpinned bool
 }
 
 func (t *fakeToken) next(stage string) error {
@@ -530,7 +532,7 @@ func (t *fakeToken) GetKey(ctx context.Context, name string) (token.Key, error) 
 	if e := t.next("getKey"); e != nil {
 		return nil, e
 	}
-	if t.gate != nil && len(token.KeyID(ctx)) != 0 {
+	if t.gate != nil && (len(token.KeyID(ctx)) != 0) != t.gateUnpinned {
 		select {
 		case t.entered <- struct{}{}:
 		default:
@@ -784,9 +786,76 @@ func runCache(f []string) string {
 // cacherace <expiry: 0|1> <k>: a request that pins key id 1 is inside the backend fetch (slow token) when the key is rotated
 // and k unpinned requests for the same name arrive; then the pinned fetch completes.  Whatever the cache does with
 // the overlapping lookups, the pinned request must be answered with id 1 (or an error), never with another id.
+// runCacheRaceRev: the key has been rotated (ids 1, 2); an UNPINNED lookup is inside the backend fetch (it will get id 2)
+// when k lookups pinned to id 1 arrive for the same name; then the fetch completes.  Every pinned lookup must be
+// answered with id 1 (or an error) - e.g. never by sharing the in-flight unpinned fetch.
+func runCacheRaceRev(exp time.Duration, k int) string {
+	tok := newFakeToken()
+	tok.ids["k"] = append(tok.ids["k"], []byte{2})
+	tok.gate, tok.entered, tok.gateUnpinned = make(chan struct{}), make(chan struct{}, 1), true
+	c := tokencache.New(tok, exp)
+	type res struct {
+		id  int
+		err error
+	}
+	unp := make(chan res, 1)
+	go func() {
+		key, err := c.GetKey(context.Background(), "k")
+		if err != nil {
+			unp <- res{0, err}
+			return
+		}
+		unp <- res{int(key.GetID()[0]), nil}
+	}()
+	select {
+	case <-tok.entered:
+	case <-time.After(5 * time.Second):
+		return "err unpinned-fetch-not-started"
+	}
+	pinned := make(chan res, k)
+	for i := 0; i < k; i++ {
+		go func() {
+			key, err := c.GetKey(token.WithKeyID(context.Background(), []byte{1}), "k")
+			if err != nil {
+				pinned <- res{0, err}
+				return
+			}
+			pinned <- res{int(key.GetID()[0]), nil}
+		}()
+	}
+	time.Sleep(150 * time.Millisecond)
+	close(tok.gate)
+	<-unp
+	worst := "p=1"
+	for i := 0; i < k; i++ {
+		select {
+		case p := <-pinned:
+			if p.err != nil {
+				if worst == "p=1" {
+					worst = "p=!"
+				}
+			} else if p.id != 1 {
+				worst = fmt.Sprintf("p=%d", p.id)
+			}
+		case <-time.After(10 * time.Second):
+			return "ok p=? pinned-request-hung"
+		}
+	}
+	if worst == "p=!" {
+		return "ok p=!"
+	}
+	return "ok " + worst
+}
+
+// RunCacheRace is exported for C07 (a key lookup that resolves to another key than the one requested)
+func RunCacheRace(f []string) string { return runCacheRace(f) }
+
 func runCacheRace(f []string) string {
 	exp := time.Duration(hx.Atoi(f[0])) * cacheUnit
 	k := int(hx.Atoi(f[1]))
+	if len(f) > 2 && f[2] == "rev" {
+		return runCacheRaceRev(exp, k)
+	}
 	tok := newFakeToken()
 	tok.gate, tok.entered = make(chan struct{}), make(chan struct{}, 1)
 	c := tokencache.New(tok, exp)
